@@ -482,11 +482,35 @@ func genMap(t *rapid.T, depth int, yamlSafe bool, noMergeKey bool) (*ordered.Map
 			}
 		}
 	}
-	want := gt.MapN(true)
-	for _, p := range model {
-		want.Put(p.k, p.v)
+	wantOf := func() *gt.Node {
+		want := gt.MapN(true)
+		for _, p := range model {
+			want.Put(p.k, p.v)
+		}
+		return want
 	}
-	return m, want
+	// the package's own map-to-map constructors are further ways of building a map in a program: the
+	// result holds the same keys, values and order (the values go through an identity function)
+	switch rapid.IntRange(0, 5).Draw(t, "derived") {
+	case 0:
+		m = ordered.TransformValues(m, func(v any) any { return v })
+		recMap.Class("built-by:TransformValues")
+	case 1:
+		// (a nil value is not assertable to any type, by the language's rule: AssertValues documents
+		// an error for it)
+		for _, p := range model {
+			if p.v.Kind == gt.Null {
+				return m, wantOf()
+			}
+		}
+		am, err := ordered.AssertValues[any](m)
+		if err != nil {
+			t.Fatalf("AssertValues[any]: %v", err)
+		}
+		m = am
+		recMap.Class("built-by:AssertValues")
+	}
+	return m, wantOf()
 }
 
 func hasKeyDeep(m *ordered.MapSA, key string) bool {
